@@ -4,10 +4,10 @@ import Rivaas.Spec.Gates
 Driver for C17. The first token after the id is the gate kind.
 
   B <limit> <skip> <cl: A | G | V int> <body> <eofWithLast> <n> {D k | Z | F}* <dflt> <n> cap* => <status> <ran> <err N|E|L|O> <data>
-  A <skip> <n> {user pass}* <realm> <auth> <dec: 0 | 1 bytes> => <ran> <status> <www: 0 | 1 s> <user>
+  A <skip> <n> {user pass}* <realm> <auth> <dec: 0 | 1 bytes> <validator: 0 | 1 verdict> => <ran> <status> <www: 0 | 1 s> <user>
   C <n> opt* <origin> <funcSays> <isOptions> => <ran> <status> acao acac expose methods headers maxage   (each 0 | 1 s)
       opt = O n s* | A b | M n s* | H n s* | E n s* | K b | X n | F b
-  M <n> opt* <method> <csrfVerified> <clZero> <n>{name val}* <n>{name val}* <n>{raw upper}* <n>{raw norm}* => <ran> <seen> <original>
+  M <n> opt* <method> <ctxOrig> <csrfVerified> <clZero> <n>{name val}* <n>{name val}* <n>{raw upper}* <n>{raw norm}* => <ran> <seen> <original>
       opt = H s | Q s | A n s* | O n s* | B b | C b
   T <policy> <path> <pre> <hostSet> <rawQuery> <forceQuery> => <ran> <status> <loc: 0 | 1 s>
 
@@ -82,7 +82,8 @@ def pAuthReq : P (Bool × Auth.Req) := do
   let realm ← str
   let auth ← str
   let dec ← opt str
-  pure (skip, { users, realm, auth, dec })
+  let validator ← opt bool
+  pure (skip, { users, realm, auth, dec, validator })
 
 def pAuthObs : P Auth.Obs := do
   let ran ← bool
@@ -144,13 +145,14 @@ def pMethodOpt : P Method.Opt := do
 def pMethodReq : P Method.Req := do
   let opts ← list pMethodOpt
   let method ← str
+  let ctxOrig ← str
   let csrfVerified ← bool
   let clZero ← bool
   let hdr ← list (pair str str)
   let qry ← list (pair str str)
   let upper ← list (pair str str)
   let norm ← list (pair str str)
-  pure { opts, method, csrfVerified, clZero, hdr, qry, upper, norm }
+  pure { opts, method, ctxOrig, csrfVerified, clZero, hdr, qry, upper, norm }
 
 def pMethodObs : P Method.Obs := do
   let ran ← bool
